@@ -420,7 +420,20 @@ def run_stimulus(stim: Dict[str, Any]) -> List[Dict[str, Any]]:
         base_sib_cfgs = [list_cfg(lst, emb) for _, lst in siblings(base, which)]
         es = [{"pos": int(e["pos"]), "r": e["r"]} for e in stim["load"]]
         try:
-            game = scenarios.build(scenario(which, stim["load"], emb))
+            if stim.get("via_env"):
+                # the Gymnasium way: the scenario is loaded by the environment and the episode started by reset()
+                # (PrimaiteGame.setup_for_episode): the lists of the running episode are what the file declares
+                from primaite.session.environment import PrimaiteGymEnv
+
+                c = scenario(which, stim["load"], emb)
+                c["agents"] = [scenarios.proxy_agent({0: {"action": "do-nothing", "options": {}}}, masking=False)]
+                env = PrimaiteGymEnv(env_config=c)
+                env.reset(seed=1)
+                env.step(0)
+                game = env.game
+                meta["via_env"] = True
+            else:
+                game = scenarios.build(scenario(which, stim["load"], emb))
         except Exception as ex:  # noqa - repository code raised while loading: an event no action allows
             meta["raised"] = f"load: {type(ex).__name__}: {ex}"[:300]
             e = event("Raised", get_list(base, which), emb, es=es)
